@@ -383,3 +383,27 @@ def field_placement(m: Model, r, rid: str, ca: "CodecAnalyser", classes: list[Cl
             r.check(got == {want}, rid, f"{c.qualname}.{fname}#iso-position",
                     f"{fname} is decoded from {sorted(got)}; ISO 14229-1 places it at {want} (a swap made in both the serialiser and the parser still round-trips)", loc=c.loc)
     return n
+
+
+def request_envelope_rule(m: Model, r, rid: str, reg: "Registry", why: str) -> int:
+    """Declared minimal/maximal length of every registered request class admits the ISO 14229-1 envelope of its row."""
+    from .oracles import iso14229
+    n = 0
+    for p in reg.pairs:
+        if p.request is None or p.service_id is None:
+            continue
+        req = p.request
+        key = (p.service_id, p.holder.rsplit(".", 1)[-1])
+        if key not in iso14229.REQ:
+            key = (p.service_id, p.sub_function_id)
+        if key not in iso14229.REQ:
+            key = (p.service_id, None)
+        if key not in iso14229.REQ:
+            raise AnalysisError(f"no ISO oracle row for request {req.name} key {(p.service_id, p.sub_function_id)}")
+        _, iso_min, iso_max = iso14229.REQ[key]
+        mn = m.class_kw(req, "minimal_length")
+        mx = m.class_kw(req, "maximal_length")
+        n += 1
+        r.check(isinstance(mn, int) and mn <= iso_min and (mx is None or (iso_max is not None and mx >= iso_max)), rid, f"{p.holder}#request-envelope",
+                f"declared length envelope [{mn}, {mx}] of {req.name} rejects well-formed requests (ISO: [{iso_min}, {iso_max}]): {why}", loc=req.loc)
+    return n
